@@ -144,7 +144,7 @@ def expr_str(e, depth=6):
     if k == "enumconst":
         return f"{e[1].split('::')[-1]}::{e[2]}"
     if k == "constty":
-        return f"const<{e[1]}>"
+        return f"const<{e[2] or e[1]}>"
     if k == "fn":
         return "fn:" + e[1].split("::")[-1]
     if k == "arg":
